@@ -754,6 +754,9 @@ func (fe *failEngine) LocalOrigins(fn *ssa.Function) (unguarded []*Origin, guard
 				if strings.HasPrefix(base, "Must") && !strings.HasPrefix(name, "(") || (strings.HasPrefix(base, "Must") && strings.Contains(name, "codec")) || strings.HasPrefix(base, "MustMarshal") || strings.HasPrefix(base, "MustUnmarshal") || strings.HasPrefix(base, "MustAccAddress") {
 					unguarded = append(unguarded, &Origin{Fn: fn, Kind: "must", Desc: name, Pos: c.Pos()})
 				}
+				if rangePanicCallees[name] {
+					unguarded = append(unguarded, &Origin{Fn: fn, Kind: "range", Desc: short(name) + "(" + tm.Of(cc.Args[len(cc.Args)-1]).Brief() + ")", Pos: c.Pos()})
+				}
 				if isMathRecv(name) && divMethods[base] && len(cc.Args) == 2 {
 					g := divGuard(in, cc.Args[1], tm)
 					if g.guarded {
@@ -785,4 +788,20 @@ func sortOrigins(os []*Origin, P *Prog) {
 		}
 		return P.Fset.Position(os[i].Pos).Line < P.Fset.Position(os[j].Pos).Line
 	})
+}
+
+// rangePanicCallees: library functions that panic when an argument is out of the range of their result
+// type (magnitude of data, not a programming error): a report value, a balance or a power that a user
+// can make large reaches them unchecked unless the call site is justified.
+var rangePanicCallees = map[string]bool{
+	"cosmossdk.io/math.NewIntFromBigInt":             true,
+	"cosmossdk.io/math.NewIntFromBigIntMut":          true,
+	"cosmossdk.io/math.NewUintFromBigInt":            true,
+	"(cosmossdk.io/math.Int).Int64":                  true,
+	"(cosmossdk.io/math.Int).Uint64":                 true,
+	"(cosmossdk.io/math.Uint).Uint64":                true,
+	"(cosmossdk.io/math.LegacyDec).TruncateInt64":    true,
+	"(cosmossdk.io/math.LegacyDec).RoundInt64":       true,
+	"(github.com/cosmos/cosmos-sdk/types.Coins).Sub": true,
+	"(github.com/cosmos/cosmos-sdk/types.Coin).Sub":  true,
 }
